@@ -11,7 +11,7 @@ FORBIDDEN = re.compile(r"\b(Admitted|admit|Axiom|Axioms|Parameter|Parameters|Con
 TRUSTED_BASE = [
     "Coq 8.16.1 kernel (coqc, full .vo build; vm_compute used for finite side conditions and witnesses; no native_compute)",
     "axioms: none (Print Assumptions under every property theorem must say 'Closed under the global context')",
-    "tools/go2v: the translator regenerating coq/gen/{Tables,Scalar,Wrappers}.v from /repo (location rules, scalar-fragment semantics, the statement fragment of Lib/GoStmt.v with its interpretation in Spec/SpecWrappers.v)",
+    "tools/go2v: the translator regenerating coq/gen/{Tables,Scalar,Wrappers,SetFuncs}.v from /repo (location rules, scalar-fragment semantics, the statement fragment of Lib/GoStmt.v with its interpretations in Spec/SpecWrappers.v and Spec/SpecSetFuncs.v)",
     "extraction: Require Extraction + ExtrOcamlBasic only (its Extract Inductive bool/option/unit/list/prod/sumbool/sumor and Extract Inlined Constant andb/orb directives); nat/positive/N/Z stay data types; OCaml 4.13.1 compiler; driver/*.ml",
     "correspondence check: harness/ (generators, oracles), lib/vcheck.py (differ); agreement on the cases run is evidence, not proof, that the hand model is the code",
 ]
